@@ -26,6 +26,17 @@ def run_property(pid: str, tier: str, seed: int) -> int:
         run.extra_cov["functions_indexed"] = len(prog.functions)
         run.extra_cov["source_digest"] = prog.digest()
         fn(prog, run, tier)
+        from .controls import run_controls
+
+        ctl = run_controls(prog)
+        run.extra_cov["positive_controls"] = ctl
+        for c in ctl:
+            if not c["fired"]:
+                run.error(f"positive control for {c['rule']} did not fire on the injected construct {c['expected']} (matcher no longer recognises what it is meant to forbid)")
+        run.rules_applied.append(
+            "positive controls: the tree is re-loaded once with in-memory injections of a forbidden construct per zero-count rule "
+            "(R-DUP, R-TRUTHY, R-PICKLE, R-ABSEPS); each rule must report the injected construct, otherwise the run fails as analysis-broken"
+        )
         if tier == "thorough" and not os.environ.get("ODCVERIF_NO_SWEEP"):
             from .mutate import sensitivity_sweep
 
